@@ -127,7 +127,7 @@ static void hist_step(const char *st) {
     case 'a': flagrunasap = 1; if (flagrunasap) { flagrunasap = 0; pqrun(); } hev("a"); hev_pq(&pqchan[0]); hev_pq(&pqchan[1]); return;
     case 'w': { datetime_sec wk = recent + SLEEP_FOREVER; pass_selprep(&wk); hev("w%ld", (long)wk); return; }
     case 'f': {
-      flagexitasap = 1; pqfinish(); flagexitasap = 0;
+      flagexitasap = 1; pqfinish(); if (pass_finish) pass_finish(); flagexitasap = 0;   /* the exit sequence of main() */
       hev("f");
       for (int c = 0; c < 2; c++) {
         hev("/"); int n = 0;
